@@ -225,6 +225,7 @@ func runC18(t *testing.T, planAny any, res *simnet.Result) {
 		}
 		var omu sync.Mutex // (the close-in-round action runs on a goroutine of the node)
 		voided := false
+		closedAt := map[string]time.Time{} // when the harness last closed (owner/service)
 		open := map[string]c18Closer{}
 		dead := map[string]bool{}
 		defer installYields(res.Seed, 0, "none")()
@@ -260,6 +261,7 @@ func runC18(t *testing.T, planAny any, res *simnet.Result) {
 			}
 			closesLeft--
 			delete(open, key)
+			closedAt[key] = time.Now()
 			omu.Unlock()
 			time.Sleep(time.Millisecond)
 			inRoundClose.Add(1)
@@ -367,6 +369,9 @@ func runC18(t *testing.T, planAny any, res *simnet.Result) {
 				omu.Lock()
 				c := open[key]
 				delete(open, key)
+				if c != nil {
+					closedAt[key] = time.Now()
+				}
 				omu.Unlock()
 				if c != nil {
 					_ = c.Close()
@@ -426,12 +431,31 @@ func runC18(t *testing.T, planAny any, res *simnet.Result) {
 				if !reflect.DeepEqual(got, want) {
 					sig := "c18:listing-mismatch"
 					onlyDead := true
+					// a listed service that is closed on a live, reachable owner: was this observer ever handed the
+					// withdrawal of that close?  (a withdrawal is flooded once, to whoever is connected at that moment)
+					missedAll, stale := true, 0
 					for kk := range got {
 						if _, ok := want[kk]; !ok {
 							sig = "c18:stale-listing"
 							owner := kk[:strings.Index(kk, "/")]
 							if _, reach := dist[id][owner]; reach && !dead[kk] {
 								onlyDead = false
+								stale++
+								omu.Lock()
+								ct, closed := closedAt[kk]
+								omu.Unlock()
+								handed := !closed
+								for _, r := range w.Wire() {
+									if r.Ad == nil || !r.Ad.Cancel || r.To != id || r.Ad.NodeID != owner || r.Ad.NodeID+"/"+r.Ad.Service != kk {
+										continue
+									}
+									if len(w.DeliveredAt(r)) > 0 && !r.Ad.Time.Before(ct.Add(-time.Second)) {
+										handed = true
+									}
+								}
+								if handed {
+									missedAll = false
+								}
 							}
 						}
 					}
@@ -442,6 +466,16 @@ func runC18(t *testing.T, planAny any, res *simnet.Result) {
 					}
 					if sig == "c18:stale-listing" && onlyDead {
 						sig = "c18:dead-node-services-listed"
+					} else if sig == "c18:stale-listing" && stale > 0 && missedAll {
+						wantAll := true
+						for kk := range want {
+							if _, ok := got[kk]; !ok {
+								wantAll = false
+							}
+						}
+						if wantAll {
+							sig = "c18:withdrawal-never-reached-observer"
+						}
 					}
 					res.Violate(sig, "after listeners stopped changing %s lists %v, open advertised services are %v", id, got, want)
 				}
